@@ -251,7 +251,7 @@ fn outcome_line(o: &Outcome) -> String {
 }
 
 pub fn exec_opts_for(prop: &str) -> ExecOpts {
-    ExecOpts { c08: prop == "C08", data_after_ec_failure: prop == "C05", data_stage: prop == "C05" || prop == "C03" }
+    ExecOpts { c08: prop == "C08", data_after_ec_failure: prop == "C05", data_stage: prop == "C05" || prop == "C03", codeword_only: false }
 }
 
 fn summarize_faults(t: &Trace, fired: &[bool]) -> J {
@@ -346,7 +346,8 @@ pub fn run_phases(ctx: &Arc<Ctx>, phases: Vec<Phase>, cfg: &RunCfg, own_prop: &s
             let stop_on_violation = cfg.stop_on_violation;
             handles.push(std::thread::spawn(move || {
                 let phase = &phases[pi];
-                let opts = exec_opts_for(phase.source.prop());
+                let mut opts = exec_opts_for(phase.source.prop());
+                opts.codeword_only = phase.source.name().contains("codeword_stage_only");
                 let mut st = Stats::new();
                 let pname = phase.source.name();
                 loop {
